@@ -395,6 +395,18 @@ def _run_nnls(case, ctx, W, b):
     ctx.cls("alpha:" + ("0" if alpha == 0 else "tiny" if alpha < 1e-6 else "pos"))
     bzero = not b.any()
     Wc, bc, Tc = W.copy(order="K"), b.copy(), None if T is None else T.copy()
+    # argument recorder on the third-party solver the wrapper documents to call: used ONLY to attribute a failed
+    # certificate to its mechanism (wrapper built the wrong system / scaled the norm wrongly, or scipy.optimize.nnls
+    # itself returned a non-minimiser for the system it was given); the verdict is always taken on the wrapper's result
+    import scipy.optimize as so
+    rec = []
+    orig = so.nnls
+
+    def spy(A, y, *a, **k):
+        out = orig(A, y, *a, **k)
+        rec.append((np.array(A, dtype=float), np.array(y, dtype=float), np.array(out[0], dtype=float), float(out[1])))
+        return out
+    so.nnls = spy
     try:
         with warnings.catch_warnings(), np.errstate(all="ignore"):
             warnings.simplefilter("ignore")
@@ -407,6 +419,8 @@ def _run_nnls(case, ctx, W, b):
                  "invert_regularised_nnls raises ValueError when no measurement is positive (normalisation divides by "
                  "max(d) = 0); the minimiser x = 0 exists", error=str(e)[:200])
         return
+    finally:
+        so.nnls = orig
     if bzero:
         ctx.mon("zero_b")
     ok = isinstance(res, tuple) and len(res) == 2 and isinstance(res[0], np.ndarray) and res[0].shape == (W.shape[1],)
@@ -429,16 +443,39 @@ def _run_nnls(case, ctx, W, b):
     else:
         dual = 0.0 if g.min() >= 0 else np.inf
         comp = 0.0 if not np.any(x * g) else np.inf
+    # mechanism attribution for failed certificates
+    upstream_kkt = upstream_rn = False
+    if len(rec) == 1:
+        A_s, y_s, x_s, rn_s = rec[0]
+        if A_s.ndim == 2 and A_s.shape[1] == x_s.shape[0] and A_s.shape[0] == y_s.shape[0] and np.all(np.isfinite(A_s)):
+            g_s, rnn_s, nC_s, nx_s, nd_s = rm.certificate(A_s, y_s, x_s)
+            tau_s = _tau(nC_s, nx_s, nd_s)
+            xinf_s = float(np.max(np.abs(x_s))) if x_s.size else 0.0
+            vmax = float(d.max())
+            # the wrapper did its documented job: handed over [W; alpha L]/max(d), [b; 0]/max(d) and returned scipy's x and
+            # rnorm * max(d) unchanged -- only then can a failure be attributed to the third-party solver
+            faithful = (vmax > 0 and A_s.shape == C.shape and np.allclose(A_s * vmax, C, rtol=1e-12, atol=0.0)
+                        and np.allclose(y_s * vmax, d, rtol=1e-12, atol=0.0) and np.array_equal(x_s, x)
+                        and abs(rn_s * vmax - rnorm) <= 1e-12 * abs(rnorm))
+            if tau_s > 0 and faithful:
+                upstream_kkt = bool(-g_s.min() > tau_s or (xinf_s > 0 and np.max(np.abs(x_s * g_s)) > tau_s * xinf_s))
+                upstream_rn = bool(abs(rn_s - rnn_s) > 1e-8 * nd_s + 1e-10 * nC_s * nx_s)
+    src = ("scipy.optimize.nnls itself returned a non-minimiser for the stacked system the wrapper handed to it "
+           "(third-party solver defect passed through by the thin wrapper): ")
     if dual > 1.0:
         j = int(np.argmin(g))
-        ctx.viol("nnls:kkt-dual-infeasible", "gradient of |Cx-d|^2 has a negative component: increasing x_j lowers the objective, "
-                 "x is not the constrained minimiser", j=j, g_j=float(g[j]), tau=tau, x_j=float(x[j]))
+        ctx.viol("nnls:scipy-nnls-non-minimiser" if upstream_kkt else "nnls:kkt-dual-infeasible",
+                 (src if upstream_kkt else "") + "gradient of |Cx-d|^2 has a negative component: increasing x_j lowers the "
+                 "objective, x is not the constrained minimiser", j=j, g_j=float(g[j]), tau=tau, x_j=float(x[j]))
     if comp > 1.0:
         j = int(np.argmax(np.abs(x * g)))
-        ctx.viol("nnls:kkt-stationarity", "a strictly positive component has a non-vanishing gradient: x is not the "
+        ctx.viol("nnls:scipy-nnls-non-minimiser" if upstream_kkt else "nnls:kkt-stationarity",
+                 (src if upstream_kkt else "") + "a strictly positive component has a non-vanishing gradient: x is not the "
                  "constrained minimiser", j=j, g_j=float(g[j]), x_j=float(x[j]), tau=tau)
     t = 1e-8 * nd + 1e-10 * nC * nx
-    ctx.close(rnorm, rn, "nnls:residual-norm-inconsistent", "reported residual norm differs from |Cx-d| of the returned x",
+    ctx.close(rnorm, rn, "nnls:scipy-nnls-rnorm-inconsistent" if upstream_rn else "nnls:residual-norm-inconsistent",
+              ("scipy.optimize.nnls itself reported a residual norm inconsistent with its own solution (passed through): "
+               if upstream_rn else "") + "reported residual norm differs from |Cx-d| of the returned x",
               atol=t if t > 0 else 0.0, monitor="nnls_rnorm")
     ctx.nontrivial(bool(W.any()) and not bzero)
 
